@@ -7,6 +7,11 @@ props = [json.loads(l) for l in open(os.path.join(V, "properties.jsonl"))]
 
 # property id -> (category, technique, level text, level note) ; absent = not claimed (reason in NOT_APPLICABLE)
 CLAIMS = {
+ "C14": ("fault_enumeration",
+         "runtime monitoring: fault enumeration over library graphs x node kinds x import histories; loader-model oracle + quiescent-point invariant on the in-progress set (hook H3)",
+         "every directed graph on 1-2 libraries (3 sampled in quick, all registered-source cases in thorough, 4 sampled) x every assignment of 6 node kinds x every history of 3 import attempts is run on the real interpreter, libraries as files under a program directory (decoy libraries in the process's cwd) and as registered sources. Each attempt's outcome must be the one a fresh depth-first load gives (success iff no fault and no cycle reachable; error kind among the reachable ones), the names bound must be exactly the exports of the successfully imported libraries with the program directory's values, and after every step the in-progress set must be empty.",
+         "any reachable error kind is accepted; termination is judged by a logical step budget, process death or a hang is a violation"),
+
  "C12": ("exploration",
          "runtime monitoring: exhaustive enumeration of import-set terms observed through eval_import (names + values of a fresh environment) against the import-set algebra, replicated across threads/processes",
          "every admissible import-set term to nesting depth 2 (depth 3 sampled) over a 4-export library is evaluated by the real interpreter through the eval_import API into a fresh environment whose exact name set and values are read back, several times in different threads/processes (different hash seeds), for a native and a Scheme-source library; a sample is also run as (import ...) text and as two-set declarations. The oracle is a 15-line map algebra.",
